@@ -470,6 +470,15 @@ def check(ctx):
     for rule, key, ok, where, what, detail in sub.got:
         if rule == 'R7.2-dispatch-table' and key.startswith('interface/'):
             ctx.ob('R6.4-safe-dispatch', key, ok, where, what, detail)
+    # "every trajectory is a combination of the net stoichiometries": a firing with a delay leaves its delayed column in exactly one
+    # place - the queue, or the state at once when the drawn delay is not positive - never nowhere (C10 R10.1-one-disposition) - re-emitted
+    from . import c10
+    sub = SubCtx(ctx)
+    for key_ in ('DelaySSASimulator', 'DelayVolumeSSASimulator'):
+        c10.check_loop(sub, key_)
+    for rule, key, ok, where, what, detail in sub.got:
+        if rule == 'R10.1-one-disposition':
+            ctx.ob('R6.1-queue-deliveries', 'C10/%s/%s' % (rule, key), ok, where, what, detail)
     ctx.floor('R6.1-queue-deliveries', 3)
     sub = SubCtx(ctx)
     c03.check_accumulation(sub)
